@@ -1002,3 +1002,49 @@ pub fn cse_cases(sigil: Option<&'static str>, thorough: bool) -> Vec<Case> {
     }
     out
 }
+
+// ---------------------------------------------------------------------------
+// CONSTCOND: conditionals whose condition is a compile-time constant in various guises (literal, defconstant,
+// a nested `if` on a constant selecting a nil / zero / non-nil branch, an inline function of a literal argument) -
+// the shapes constant-condition folding looks for.
+
+pub fn constcond_cases(sigil: Option<&'static str>) -> Vec<Case> {
+    let mut out = vec![];
+    let params = Pat::list(vec![Pat::n("A"), Pat::n("B")]);
+    let args = vec![T::list(&[T::int(5), T::int(7)]), T::list(&[T::nil(), T::int(1)])];
+    let consts: Vec<(&str, E)> = vec![("one", E::int(1)), ("zero", E::int(0)), ("nil", E::Quote(T::nil())), ("five", E::int(5))];
+    let vals: Vec<(&str, E)> = vec![("nil", E::Quote(T::nil())), ("zero", E::int(0)), ("one", E::int(1))];
+    let outer = |c: E| E::If(Box::new(c), Box::new(E::prim("+", vec![E::v("A"), E::int(100)])), Box::new(E::prim("+", vec![E::v("A"), E::int(200)])));
+    let mut push = |out: &mut Vec<Case>, helpers: Vec<Helper>, cond: E, tag: String| {
+        for in_fun in [false, true] {
+            let (hs, body) = if in_fun {
+                let mut hs = helpers.clone();
+                hs.push(Helper::Fun { name: "F".into(), inline: false, params: params.clone(), body: outer(cond.clone()) });
+                (hs, E::call("F", vec![E::v("A"), E::v("B")]))
+            } else {
+                (helpers.clone(), outer(cond.clone()))
+            };
+            out.push(Case { prog: Prog { sigil, params: params.clone(), helpers: hs, body }, args: args.clone(), tags: vec![format!("constcond/{}", if in_fun { "defun" } else { "main" }), tag.clone()] });
+        }
+    };
+    for (cn, c) in &consts {
+        push(&mut out, vec![], c.clone(), format!("literal-{}", cn));
+        push(&mut out, vec![Helper::Constant { name: "K".into(), datum: match c { E::Lit(_, t) => t.clone(), E::Quote(t) => t.clone(), _ => T::nil() } }], E::v("K"), format!("defconstant-{}", cn));
+        push(&mut out, vec![], E::prim("not", vec![c.clone()]), format!("not-{}", cn));
+        for (v1n, v1) in &vals {
+            for (v2n, v2) in &vals {
+                if v1n == v2n {
+                    continue;
+                }
+                push(&mut out, vec![], E::If(Box::new(c.clone()), Box::new(v1.clone()), Box::new(v2.clone())), format!("nested-if-{}-{}-{}", cn, v1n, v2n));
+                push(
+                    &mut out,
+                    vec![Helper::Fun { name: "PICK".into(), inline: true, params: Pat::list(vec![Pat::n("S")]), body: E::If(Box::new(E::v("S")), Box::new(v1.clone()), Box::new(v2.clone())) }],
+                    E::call("PICK", vec![c.clone()]),
+                    format!("inline-pick-{}-{}-{}", cn, v1n, v2n),
+                );
+            }
+        }
+    }
+    out
+}
